@@ -52,6 +52,7 @@ func main() {
 	step("pow-forks", func() { runPowForks(r) })
 	step("pluggable", func() { runPluggableRestarts(r) })
 	step("compact", func() { runCompact(r) })
+	step("engine", func() { runEngineAcceptance(r) })
 
 	// every mechanism of the statement must have been reached
 	r.Floor("tdpos.tiling.configs", 1296)
